@@ -239,12 +239,416 @@ fn reach_search(seed: u64, random_cases: usize) -> (u64, Option<Value>) {
 }
 
 // ------------------------------------------------------------------------------------------------------------------------
+// c17.toctou / c17.chroot: the two check functions on PROGRAMS (real get_program_cfg + real check_cwe)
+// ------------------------------------------------------------------------------------------------------------------------
+//   programs   1..=2 functions f0, f1; every function has 1..=5 blocks; a block ends in one of the jump lists
+//                [] | [branch b] | [cbranch b, branch b'] | [return] | [ext X -> b] | [ext X, no return] |
+//                [cbranch b, ext X -> b'] | [call f1 -> b] (from f0 only) | [callind -> b]
+//              with X one of the imported symbols among chroot, chdir, setuid, access, open.  All jump targets exist.
+//   reference  (from the property statement, on the PROGRAM, not on the graph) block-level successor relation of a
+//              function: branch / cbranch -> target; returning extern or indirect call -> return block; returning internal
+//              call -> return block when the callee contains a return instruction; everything else: no successor.
+//              "a call to X" = a block successor produced by a DIRECT extern call to X.  Reachability by round-based
+//              relaxation without the successors that are calls to the check function.
+//   toctou     expected: for every configured pair with both names imported and every returning direct call to the check
+//              function, one warning iff a call to the use function is reachable from the return block; compared as
+//              multisets of (check name, use name, first tid of the warning), and the second tid must be the jump of a
+//              reachable use call.
+//   chroot     expected: for every block that holds a direct call to chroot, one warning iff chdir is not imported, or no
+//              chdir call is reachable from the block after the call and the function does not call both chdir and an
+//              imported configured privilege-dropping function; compared as multisets of the warning's tid.
+//              KNOWN FINDING class `K1-chroot-call-block-without-exactly-one-successor`: chroot and chdir imported and the
+//              chroot block has no successor (call without return target) or two (conditional jump + call): the property
+//              says "handles every program without failing", the real check panics.  Counted separately in the sweep,
+//              reported as a disagreement by `replay` (that is the reproduction of the finding).
+use cwe_checker_lib::analysis::graph::get_program_cfg;
+use cwe_checker_lib::checkers::{cwe_243, cwe_367};
+
+use cwe_checker_lib::pipeline::AnalysisResults;
+use std::collections::BTreeMap;
+
+const SYMS: [&str; 5] = ["chroot", "chdir", "setuid", "access", "open"];
+pub const K1: &str = "K1-chroot-call-block-without-exactly-one-successor";
+
+#[derive(Clone, Debug, PartialEq)]
+enum J {
+    Branch(usize),
+    CBranch(usize),
+    Return,
+    Ext(usize, Option<usize>),
+    Int(Option<usize>),
+    Ind(Option<usize>),
+}
+
+#[derive(Clone, Debug)]
+pub struct ProgCase {
+    /// fns[f][b] = jump list of block b of function f
+    fns: Vec<Vec<Vec<J>>>,
+    /// which of SYMS are extern symbols of the program
+    imported: Vec<bool>,
+    /// cwe_243: configured privilege-dropping functions; cwe_367: configured pairs
+    privs: Vec<String>,
+    pairs: Vec<(String, String)>,
+}
+
+fn blk_tid(f: usize, b: usize) -> Tid {
+    Tid::new(format!("f{}_b{}", f, b))
+}
+fn jmp_tid(f: usize, b: usize, k: usize) -> Tid {
+    Tid::new(format!("f{}_b{}_j{}", f, b, k))
+}
+fn sym_tid(s: usize) -> Tid {
+    Tid::new(format!("sym_{}", SYMS[s]))
+}
+fn var(name: &str) -> Variable {
+    Variable { name: name.to_string(), size: ByteSize::new(8), is_temp: false }
+}
+
+impl ProgCase {
+    fn to_json(&self, which: &str) -> Value {
+        let jj = |j: &J| match j {
+            J::Branch(t) => json!(["branch", t]),
+            J::CBranch(t) => json!(["cbranch", t]),
+            J::Return => json!(["return"]),
+            J::Ext(s, r) => json!(["ext", SYMS[*s], r]),
+            J::Int(r) => json!(["call_f1", r]),
+            J::Ind(r) => json!(["callind", r]),
+        };
+        json!({"fn": which,
+               "fns": self.fns.iter().map(|f| f.iter().map(|b| b.iter().map(jj).collect::<Vec<_>>()).collect::<Vec<_>>()).collect::<Vec<_>>(),
+               "imported": SYMS.iter().enumerate().filter(|(i, _)| self.imported[*i]).map(|(_, s)| *s).collect::<Vec<_>>(),
+               "privs": self.privs, "pairs": self.pairs.iter().map(|(a, b)| json!([a, b])).collect::<Vec<_>>()})
+    }
+    fn from_json(v: &Value) -> ProgCase {
+        let opt = |x: &Value| x.as_u64().map(|u| u as usize);
+        let jj = |j: &Value| match j[0].as_str().unwrap_or("") {
+            "branch" => J::Branch(opt(&j[1]).unwrap_or(0)),
+            "cbranch" => J::CBranch(opt(&j[1]).unwrap_or(0)),
+            "ext" => J::Ext(SYMS.iter().position(|s| Some(*s) == j[1].as_str()).unwrap_or(0), opt(&j[2])),
+            "call_f1" => J::Int(opt(&j[1])),
+            "callind" => J::Ind(opt(&j[1])),
+            _ => J::Return,
+        };
+        let arr = |x: &Value| x.as_array().cloned().unwrap_or_default();
+        ProgCase {
+            fns: arr(&v["fns"]).iter().map(|f| arr(f).iter().map(|b| arr(b).iter().map(jj).collect()).collect()).collect(),
+            imported: SYMS.iter().map(|s| arr(&v["imported"]).iter().any(|x| x.as_str() == Some(*s))).collect(),
+            privs: arr(&v["privs"]).iter().filter_map(|x| x.as_str().map(|s| s.to_string())).collect(),
+            pairs: arr(&v["pairs"]).iter().map(|x| (x[0].as_str().unwrap_or("").to_string(), x[1].as_str().unwrap_or("").to_string())).collect(),
+        }
+    }
+
+    fn project(&self) -> Project {
+        let mut subs = BTreeMap::new();
+        for (f, blocks) in self.fns.iter().enumerate() {
+            let blks = blocks.iter().enumerate().map(|(b, js)| {
+                let jmps = js.iter().enumerate().map(|(k, j)| {
+                    let term = match j {
+                        J::Branch(t) => Jmp::Branch(blk_tid(f, *t)),
+                        J::CBranch(t) => Jmp::CBranch { target: blk_tid(f, *t), condition: Expression::Var(var("ZF")) },
+                        J::Return => Jmp::Return(Expression::Var(var("RAX"))),
+                        J::Ext(s, r) => Jmp::Call { target: sym_tid(*s), return_: r.map(|r| blk_tid(f, r)) },
+                        J::Int(r) => Jmp::Call { target: Tid::new("f1"), return_: r.map(|r| blk_tid(f, r)) },
+                        J::Ind(r) => Jmp::CallInd { target: Expression::Var(var("RAX")), return_: r.map(|r| blk_tid(f, r)) },
+                    };
+                    Term { tid: jmp_tid(f, b, k), term }
+                }).collect();
+                Term { tid: blk_tid(f, b), term: Blk { defs: vec![], jmps, indirect_jmp_targets: vec![] } }
+            }).collect();
+            let tid = Tid::new(format!("f{}", f));
+            subs.insert(tid.clone(), Term { tid, term: Sub { name: format!("f{}", f), blocks: blks, calling_convention: None } });
+        }
+        let mut extern_symbols = BTreeMap::new();
+        for (s, name) in SYMS.iter().enumerate() {
+            if self.imported[s] {
+                extern_symbols.insert(sym_tid(s), ExternSymbol {
+                    tid: sym_tid(s),
+                    addresses: vec!["0x3000".to_string()],
+                    name: name.to_string(),
+                    calling_convention: None,
+                    parameters: vec![],
+                    return_values: vec![],
+                    no_return: false,
+                    has_var_args: false,
+                });
+            }
+        }
+        let program = Program { subs, extern_symbols, entry_points: BTreeSet::from([Tid::new("f0")]), address_base_offset: 0 };
+        Project {
+            program: Term { tid: Tid::new("program"), term: program },
+            cpu_architecture: "x86_64".to_string(),
+            stack_pointer_register: var("RSP"),
+            calling_conventions: BTreeMap::new(),
+            register_set: BTreeSet::new(),
+            datatype_properties: DatatypeProperties {
+                char_size: ByteSize::new(1), double_size: ByteSize::new(8), float_size: ByteSize::new(4), integer_size: ByteSize::new(4),
+                long_double_size: ByteSize::new(8), long_long_size: ByteSize::new(8), long_size: ByteSize::new(8),
+                pointer_size: ByteSize::new(8), short_size: ByteSize::new(2),
+            },
+            runtime_memory_image: RuntimeMemoryImage::empty(true),
+        }
+    }
+
+    // ---- reference, from the property statement ----
+
+    fn fn_returns(&self, f: usize) -> bool {
+        self.fns.get(f).map(|bs| bs.iter().any(|js| js.contains(&J::Return))).unwrap_or(false)
+    }
+    /// successors of block b of function f: (target block, Some((symbol, jump number)) when produced by a direct extern call)
+    fn succ(&self, f: usize, b: usize) -> Vec<(usize, Option<(usize, usize)>)> {
+        let mut out = Vec::new();
+        for (k, j) in self.fns[f][b].iter().enumerate() {
+            match j {
+                J::Branch(t) | J::CBranch(t) => out.push((*t, None)),
+                J::Ext(s, Some(r)) => out.push((*r, Some((*s, k)))),
+                J::Int(Some(r)) if self.fns.len() > 1 && !self.fns[1].is_empty() && self.fn_returns(1) => out.push((*r, None)),
+                J::Ind(Some(r)) => out.push((*r, None)),
+                _ => (),
+            }
+        }
+        out
+    }
+    /// jump tids of the calls to `use_` reachable from block `start` of function f without passing a call to `check`
+    fn hits(&self, f: usize, start: usize, check: usize, use_: usize) -> BTreeSet<String> {
+        let n = self.fns[f].len();
+        let mut reach = vec![false; n];
+        reach[start] = true;
+        loop {
+            let mut changed = false;
+            for b in 0..n {
+                if !reach[b] { continue; }
+                for (t, c) in self.succ(f, b) {
+                    if c.map(|(s, _)| s) != Some(check) && !reach[t] {
+                        reach[t] = true;
+                        changed = true;
+                    }
+                }
+            }
+            if !changed { break; }
+        }
+        let mut out = BTreeSet::new();
+        for b in 0..n {
+            if reach[b] {
+                for (_, c) in self.succ(f, b) {
+                    if let Some((s, k)) = c {
+                        if s == use_ { out.insert(format!("{}", jmp_tid(f, b, k))); }
+                    }
+                }
+            }
+        }
+        out
+    }
+    fn sym_index(&self, name: &str) -> Option<usize> {
+        SYMS.iter().position(|s| *s == name).filter(|i| self.imported[*i])
+    }
+    fn fn_calls(&self, f: usize, s: usize) -> bool {
+        self.fns[f].iter().any(|js| js.iter().any(|j| matches!(j, J::Ext(x, _) if *x == s)))
+    }
+
+    /// expected toctou warnings: (check, use, return block tid) -> admissible second tids
+    fn toctou_expected(&self) -> Vec<((String, String, String), BTreeSet<String>)> {
+        let mut out = Vec::new();
+        for (c, u) in &self.pairs {
+            if let (Some(ci), Some(ui)) = (self.sym_index(c), self.sym_index(u)) {
+                for f in 0..self.fns.len() {
+                    for b in 0..self.fns[f].len() {
+                        for j in &self.fns[f][b] {
+                            if let J::Ext(s, Some(r)) = j {
+                                if *s == ci {
+                                    let h = self.hits(f, *r, ci, ui);
+                                    if !h.is_empty() {
+                                        out.push(((c.clone(), u.clone(), format!("{}", blk_tid(f, *r))), h));
+                                    }
+                                }
+                            }
+                        }
+                    }
+                }
+            }
+        }
+        out
+    }
+    fn toctou_real(&self) -> Result<Vec<((String, String, String), String)>, String> {
+        let case = self.clone();
+        catch_unwind(AssertUnwindSafe(move || {
+            let project = case.project();
+            let graph = get_program_cfg(&project.program);
+            let results = AnalysisResults::new(&[], &graph, &project);
+            let (_logs, warnings) = cwe_367::check_cwe(&results, &json!({"pairs": case.pairs.iter().map(|(a, b)| json!([a, b])).collect::<Vec<_>>()}));
+            warnings.iter().map(|w| ((w.symbols[0].clone(), w.symbols[1].clone(), w.tids[0].clone()), w.tids[1].clone())).collect()
+        })).map_err(|_| "panic".to_string())
+    }
+    fn toctou_check(&self) -> Option<Value> {
+        let mut exp = self.toctou_expected();
+        let got = self.toctou_real();
+        let ok = match &got {
+            Err(_) => false,
+            Ok(ws) => {
+                let mut ok = ws.len() == exp.len();
+                for (key, second) in ws {
+                    match exp.iter().position(|(k, h)| k == key && h.contains(second)) {
+                        Some(i) => { exp.remove(i); }
+                        None => { ok = false; }
+                    }
+                }
+                ok
+            }
+        };
+        if ok { None } else {
+            Some(json!({"input": self.to_json("toctou"),
+                        "expected": self.toctou_expected().iter().map(|(k, h)| json!([k.0, k.1, k.2, h.iter().collect::<Vec<_>>()])).collect::<Vec<_>>(),
+                        "got": match got { Ok(ws) => json!(ws.iter().map(|(k, s)| json!([k.0, k.1, k.2, s])).collect::<Vec<_>>()), Err(e) => json!(e) }}))
+        }
+    }
+
+    /// Ok(expected warning tids) or Err(K1) when the property demands "no failure" on a program the check cannot handle
+    fn chroot_expected(&self) -> (Vec<String>, bool) {
+        let mut out = Vec::new();
+        let mut k1 = false;
+        let chroot = match self.sym_index("chroot") { Some(i) => i, None => return (out, false) };
+        let chdir = self.sym_index("chdir");
+        for f in 0..self.fns.len() {
+            for b in 0..self.fns[f].len() {
+                let first = self.fns[f][b].iter().position(|j| matches!(j, J::Ext(s, _) if *s == chroot));
+                let Some(k) = first else { continue };
+                let tid = format!("{}", jmp_tid(f, b, k));
+                match chdir {
+                    None => out.push(tid),
+                    Some(cd) => {
+                        let succ = self.succ(f, b);
+                        // an internal call contributes its CallCombine edge even when the callee never returns
+                        let extra = self.fns[f][b].iter().filter(|j| matches!(j, J::Int(_)) && !(matches!(j, J::Int(Some(_))) && self.fn_returns(1))).count();
+                        if succ.len() + extra != 1 {
+                            k1 = true;
+                            continue;
+                        }
+                        if extra == 1 {
+                            // the only edge leads into the call stub of a callee that never returns: nothing is reachable
+                            if !(self.fn_calls(f, cd) && self.privs.iter().any(|p| self.sym_index(p).map(|s| self.fn_calls(f, s)).unwrap_or(false))) {
+                                out.push(tid);
+                            }
+                            continue;
+                        }
+                        let after = succ[0].0;
+                        let reachable = !self.hits(f, after, chroot, cd).is_empty();
+                        let both = self.fn_calls(f, cd) && self.privs.iter().any(|p| self.sym_index(p).map(|s| self.fn_calls(f, s)).unwrap_or(false));
+                        if !reachable && !both { out.push(tid); }
+                    }
+                }
+            }
+        }
+        out.sort();
+        (out, k1)
+    }
+    fn chroot_real(&self) -> Result<Vec<String>, String> {
+        let case = self.clone();
+        catch_unwind(AssertUnwindSafe(move || {
+            let mut project = case.project();
+            // C17_NORMALIZE=1: run the project normalisation passes first (used to show that the known finding survives them)
+            if std::env::var("C17_NORMALIZE").is_ok() {
+                let _ = project.normalize();
+            }
+            let graph = get_program_cfg(&project.program);
+            let results = AnalysisResults::new(&[], &graph, &project);
+            let (_logs, warnings) = cwe_243::check_cwe(&results, &json!({"priviledge_dropping_functions": case.privs}));
+            let mut v: Vec<String> = warnings.iter().map(|w| w.tids[0].clone()).collect();
+            v.sort();
+            v
+        })).map_err(|_| "panic".to_string())
+    }
+    /// (disagreement, is-known-finding-class)
+    fn chroot_check(&self) -> (Option<Value>, bool) {
+        let (exp, k1) = self.chroot_expected();
+        let got = self.chroot_real();
+        if k1 {
+            // the property: no failure.  Any non-panicking answer is accepted here (the warnings of the other blocks are
+            // not compared); a panic is the known finding.
+            return match got {
+                Ok(_) => (None, false),
+                Err(e) => (Some(json!({"input": self.to_json("chroot"), "expected": "no failure (the property: handles every program without failing)", "got": e, "known_finding": K1})), true),
+            };
+        }
+        match got {
+            Ok(ref v) if *v == exp => (None, false),
+            _ => (Some(json!({"input": self.to_json("chroot"), "expected": exp, "got": match got { Ok(v) => json!(v), Err(e) => json!(e) }})), false),
+        }
+    }
+}
+
+fn prog_random(rng: &mut Rng, chroot_bias: bool) -> ProgCase {
+    let nf = 1 + (rng.next() % 2) as usize;
+    let mut imported: Vec<bool> = (0..SYMS.len()).map(|_| rng.next() % 4 != 0).collect();
+    if chroot_bias { imported[0] = true; }
+    let imp: Vec<usize> = (0..SYMS.len()).filter(|i| imported[*i]).collect();
+    let mut fns = Vec::new();
+    for f in 0..nf {
+        let nb = 1 + (rng.next() % 5) as usize;
+        let mut blocks = Vec::new();
+        for _ in 0..nb {
+            let t = |rng: &mut Rng| (rng.next() % nb as u64) as usize;
+            let ext = |rng: &mut Rng| if imp.is_empty() { None } else { Some(imp[(rng.next() % imp.len() as u64) as usize]) };
+            let js = match rng.next() % 16 {
+                0 => vec![],
+                1 | 2 => vec![J::Branch(t(rng))],
+                3 | 4 => vec![J::CBranch(t(rng)), J::Branch(t(rng))],
+                5 => vec![J::Return],
+                6..=10 => match ext(rng) { Some(s) => vec![J::Ext(s, Some(t(rng)))], None => vec![J::Return] },
+                11 => match ext(rng) { Some(s) => vec![J::Ext(s, None)], None => vec![] },
+                12 => match ext(rng) { Some(s) => vec![J::CBranch(t(rng)), J::Ext(s, Some(t(rng)))], None => vec![] },
+                13 => if f == 0 && nf > 1 { vec![J::Int(Some(t(rng)))] } else { vec![J::Branch(t(rng))] },
+                14 => vec![J::Ind(Some(t(rng)))],
+                _ => match ext(rng) { Some(s) => vec![J::Ext(s, Some(t(rng)))], None => vec![J::Return] },
+            };
+            blocks.push(js);
+        }
+        fns.push(blocks);
+    }
+    let names = ["setuid", "open", "nonexistent", "chdir"];
+    let privs = (0..(rng.next() % 3)).map(|_| names[(rng.next() % 4) as usize].to_string()).collect();
+    let pn = ["access", "open", "chroot", "chdir", "nonexistent"];
+    let pairs = (0..(1 + rng.next() % 2)).map(|_| (pn[(rng.next() % 5) as usize].to_string(), pn[(rng.next() % 5) as usize].to_string())).collect();
+    ProgCase { fns, imported, privs, pairs }
+}
+
+/// (cases, known-finding cases, first disagreement that is not the known finding, first known-finding record)
+fn prog_search(which: &str, seed: u64, n: usize) -> (u64, u64, Option<Value>, Option<Value>) {
+    let mut rng = Rng(seed ^ if which == "toctou" { 0x367 } else { 0x243 });
+    let (mut cases, mut known) = (0u64, 0u64);
+    let mut first_known = None;
+    for _ in 0..n {
+        let c = prog_random(&mut rng, which == "chroot");
+        cases += 1;
+        if which == "toctou" {
+            if let Some(d) = c.toctou_check() { return (cases, known, Some(d), first_known); }
+        } else {
+            match c.chroot_check() {
+                (Some(d), true) => { known += 1; if first_known.is_none() { first_known = Some(d); } }
+                (Some(d), false) => return (cases, known, Some(d), first_known),
+                _ => (),
+            }
+        }
+    }
+    (cases, known, None, first_known)
+}
+
+// ------------------------------------------------------------------------------------------------------------------------
 // dispatch
 // ------------------------------------------------------------------------------------------------------------------------
 
 pub fn search(twin: &str, _case: Option<&str>, seed: u64) -> Option<Value> {
     match twin {
         "c17.reach" => reach_search(seed, 20_000).1,
+        "c17.toctou" => prog_search("toctou", seed, 20_000).2,
+        "c17.chroot" => {
+            // a disagreement outside the recorded class K1 wins; hits of K1 alone are reported as `known_only`
+            // (main.rs prints found=false for them, the check prints them as KNOWN-FINDING)
+            let r = prog_search("chroot", seed, 20_000);
+            match (r.2, r.3) {
+                (Some(d), _) => Some(d),
+                (None, Some(k)) => Some(json!({"known_only": true, "known": [k], "known_finding_cases": r.1, "evaluations": r.0})),
+                (None, None) => None,
+            }
+        }
         _ => None,
     }
 }
@@ -255,6 +659,14 @@ pub fn replay(twin: &str, input: &Value) -> Value {
             None => json!({"agrees": true}),
             Some(d) => json!({"agrees": false, "expected": d["expected"], "got": d["got"]}),
         },
+        "toctou" => match ProgCase::from_json(input).toctou_check() {
+            None => json!({"agrees": true}),
+            Some(d) => json!({"agrees": false, "expected": d["expected"], "got": d["got"]}),
+        },
+        "chroot" => match ProgCase::from_json(input).chroot_check() {
+            (None, _) => json!({"agrees": true}),
+            (Some(d), _) => json!({"agrees": false, "expected": d["expected"], "got": d["got"], "known_finding": d["known_finding"]}),
+        },
         _ => json!({"agrees": true, "note": "unknown c17 twin"}),
     }
 }
@@ -264,6 +676,11 @@ pub fn sweep(twin: &str, seed: u64) -> Value {
         "c17.reach" => {
             let (cases, d) = reach_search(seed, 200_000);
             json!({"cases": cases, "disagreements": if d.is_some() { 1 } else { 0 }, "first": d})
+        }
+        "c17.toctou" | "c17.chroot" => {
+            let (cases, known, d, first_known) = prog_search(&twin[4..], seed, 100_000);
+            json!({"cases": cases, "disagreements": if d.is_some() { 1 } else { 0 }, "first": d,
+                   "known_finding_cases": known, "known_finding": if known > 0 { json!(K1) } else { Value::Null }, "first_known_finding": first_known})
         }
         _ => json!({"cases": 0, "disagreements": 0, "note": "unknown c17 twin"}),
     }
